@@ -14,7 +14,7 @@ Driver for property C09.  One scenario per line:
          or `parse-err <kind>` when the address does not parse
 
   events: af[:refused|connectError|dnsLookup|timeout|other] ac ap ao ax hr he cl rp:<serial>:<0|1> ex:<serial> ca:<0|1>:<r> no:<r> cn:<c> pe:<key> pi:<key>
-          pn:<p>:<r> pc:<p>:<c> dp:<p>          reactions r: n c u r
+          pn:<p>:<r> pc:<p>:<c> dp:<p>          reactions r: n c u r p
 -/
 open Txdbus.Client.Endpoints Txdbus.Client.Lifecycle Driver
 
@@ -46,6 +46,7 @@ def parseReaction : String → Option Reaction
   | "c" => some .newCall
   | "u" => some .unregisterSelf
   | "r" => some .registerAnother
+  | "p" => some .newProxy
   | _ => none
 
 def parseBool : String → Option Bool
